@@ -29,15 +29,27 @@ func (pool FarmPool) ExpiredHeight() (int64, error) {
 
 func (pool FarmPool) CaclRewards(farmInfo FarmInfo, deltaAmt sdkmath.Int) (rewards, rewardDebt sdk.Coins) {
 	for _, r := range pool.Rules {
+		// exact pending = rps*locked - debt; the part below one unit that cannot be paid now
+		// is carried into the new debt, and the new debt is rounded up, so that a farmer is
+		// never paid more than the accumulator entitles him to (the collector stays solvent)
+		carry := sdkmath.LegacyZeroDec()
 		if farmInfo.Locked.GT(sdkmath.ZeroInt()) {
-			pendingRewardTotal := r.RewardPerShare.MulInt(farmInfo.Locked).TruncateInt()
-			pendingReward := pendingRewardTotal.Sub(farmInfo.RewardDebt.AmountOf(r.Reward))
+			pendingExact := r.RewardPerShare.MulInt(farmInfo.Locked).
+				Sub(sdkmath.LegacyNewDecFromInt(farmInfo.RewardDebt.AmountOf(r.Reward)))
+			pendingReward := pendingExact.TruncateInt()
+			if pendingReward.IsNegative() {
+				pendingReward = sdkmath.ZeroInt()
+			}
+			carry = pendingExact.Sub(sdkmath.LegacyNewDecFromInt(pendingReward))
 			rewards = rewards.Add(sdk.NewCoin(r.Reward, pendingReward))
 		}
 
 		locked := farmInfo.Locked.Add(deltaAmt)
-		debt := sdk.NewCoin(r.Reward, r.RewardPerShare.MulInt(locked).TruncateInt())
-		rewardDebt = rewardDebt.Add(debt)
+		debtAmt := r.RewardPerShare.MulInt(locked).Sub(carry).Ceil().TruncateInt()
+		if debtAmt.IsNegative() {
+			debtAmt = sdkmath.ZeroInt()
+		}
+		rewardDebt = rewardDebt.Add(sdk.NewCoin(r.Reward, debtAmt))
 	}
 	return rewards, rewardDebt
 }
